@@ -17,18 +17,22 @@
      * a stand-alone comment of any of the three levels (#, ##, ###): at least one line; no CR LF in a line;
        the first byte of a line is not a UTF-8 continuation byte; a line is empty or contains a byte other
        than a space; the LAST line is not empty (D7); or
-     * a message or a term without attached comment; its value and the value of each of its attributes is
-       ONE text element of ONE line (no '{' '}' CR LF in it, no space at either end, not empty, first byte not
-       a UTF-8 continuation byte); a message may have no value if it has attributes; identifiers well-formed.
+     * a message or a term without attached comment; its value and the value of each of its attributes is a
+       ONE-LINE pattern: a non-empty sequence of text elements (not empty, no '{' '}' CR LF, first byte not a
+       UTF-8 continuation byte, no two in a row) and placeables whose expression is a variable reference, a
+       message reference with or without attribute, a term reference without attribute and arguments, a
+       number literal or a string literal (any escapes); no space at the start and at the end of the line;
+       a message may have no value if it has attributes; identifiers, numbers and strings well-formed.
    All layouts render can choose for such trees are covered: 0-2 spaces before and after '=', inline or
-   block start of each value (with an optional blank line and any indentation), attribute lines indented by
-   1-3 spaces, 0-2 blank lines at the start, the blank lines the grammar requires after a comment (so that it
-   neither attaches to the next message nor merges with the next comment) plus 0-2 more between any two
-   entries, 0-2 spaces on blank lines, LF or CRLF at every line end, final line end absent / present /
-   followed by a blank line.  (The proof covers more: any number of spaces and blank lines.)
+   block start of each value (with an optional blank line and any indentation), blanks (spaces and line
+   breaks) inside the braces of a placeable, attribute lines indented by 1-3 spaces, 0-2 blank lines at the
+   start, the blank lines the grammar requires after a comment (so that it neither attaches to the next
+   message nor merges with the next comment) plus 0-2 more between any two entries, 0-2 spaces on blank
+   lines, LF or CRLF at every line end, final line end absent / present / followed by a blank line.
+   (The proof covers more: any number of spaces and blank lines, any blank inside braces.)
    EXCLUDED from the fragment: comments attached to a message or term, comments whose last line is empty or
-   that have a whitespace-only non-empty line, multi-line text, placeables (hence select expressions,
-   references, literals, call arguments), Junk.
+   that have a whitespace-only non-empty line, multi-line text, select expressions, function references and
+   call arguments, term attributes, nested placeables, Junk.
    Examples (vm_compute) for trees outside the fragment: C02_example_xxx.                            *)
 From FluentV Require Import Base.Bytes Base.Outcome Base.Utf8 Syntax.Ast.
 From FluentV Require Import Syntax.ParserModel Syntax.Render Syntax.TreeNorm Syntax.RoundTrip.
@@ -80,8 +84,14 @@ Definition ex_simple : resource :=
    GroupComment (Comment [b "a group"]);
    GroupComment (Comment [b "another group"]);
    CommentEntry (Comment [b "free, not attached"]);
-   Message (b "hello") (Some (Pattern [TextElement (b "Hello, world!")]))
-           [Attribute (b "title") (Pattern [TextElement (b "*Hi*")]); Attribute (b "x-y") (Pattern [TextElement (b ".dot")])] None;
+   Message (b "hello")
+           (Some (Pattern [TextElement (b "Hello, "); PlaceableElement (Inline (VariableReference (b "user")));
+                           TextElement (b "! You have "); PlaceableElement (Inline (NumberLiteral (b "-3.5")));
+                           PlaceableElement (Inline (TermReference (b "unit") None None)); TextElement (b " from ");
+                           PlaceableElement (Inline (MessageReference (b "app") (Some (b "name"))));
+                           PlaceableElement (Inline (StringLiteral (b "\u00e9{")))]))
+           [Attribute (b "title") (Pattern [TextElement (b "*Hi*")]);
+            Attribute (b "x-y") (Pattern [PlaceableElement (Inline (MessageReference (b "dot") None)); TextElement (b " .dot")])] None;
    Message (b "only-attrs") None [Attribute (b "a") (Pattern [TextElement (b "b")])] None;
    Term (b "brand") (Pattern [TextElement (b "[Fluent]")]) [] None;
    CommentEntry (Comment [b "the end"])].
